@@ -162,7 +162,7 @@ WEIGHTS = {"fmt": 10, "seq": 10, "chart_fmt": 8, "table_op": 6, "set_text": 5, "
 
 
 def jobs(tier):
-    n = 60 if tier == "thorough" else 25
+    n = 60 if tier == "thorough" else 40
     decks = corpus_decks()
     js = []
     for i in range(16):
